@@ -692,6 +692,8 @@ def gen_op(rng, wd: World, swarm, step, script):
 
 def _set_params_op(rng, wd, ai, twin=True):
     w = wd.w
+    if not twin and rng.random() < 0.08:
+        return {"op": "set_params", "alg": ai, "params": None}  # parameters taken away again: the run gate must hold
     nmin = min(min(s["ndat"]) for s in w["setups"])
     cmin = min(min(s["nch"]) for s in w["setups"])
     cls = w["algs"][ai]["cls"]
@@ -928,8 +930,13 @@ def apply_op(wd: World, op, step):
     elif k == "set_params":
         ai = op["alg"]
         cls = _classes()[w["algs"][ai]["cls"]]
-        wd.algs[ai].set_run_params(cls.RunParamCls(**copy.deepcopy(op["params"])))
-        wd.st[ai].has_params = True
+        if op["params"] is None:
+            wd.algs[ai].set_run_params(None)
+            wd.st[ai].has_params = False
+            wd.inc("probe.run_params_removed")
+        else:
+            wd.algs[ai].set_run_params(cls.RunParamCls(**copy.deepcopy(op["params"])))
+            wd.st[ai].has_params = True
         wd.st[ai].cur_params = copy.deepcopy(op["params"])
         wd.st[ai].clean_params = copy.deepcopy(wd.algs[ai].run_params)
         if wd.st[ai].ran:
@@ -1664,8 +1671,20 @@ def run_case(seed, tier="quick", case=None, known=()):
     if epilogue and not wd.stop:
         _epilogue(wd, len(res["ops"]))
     if not wd.stop:
+        # a parameter object the USER shares between a dropped original and a live algorithm may be changed by
+        # the live algorithm's own run or extraction: that is the user's sharing, not aliasing by persistence
+        live = {id(a.run_params) for a in wd.algs if getattr(a, "run_params", None) is not None}
+
+        def _wo_shared(obj, c):
+            c = copy.deepcopy(c)
+            objs = list((getattr(obj, "algorithms", {}) or {}).values())
+            for a, ca in zip(objs, c["algs"]):
+                if id(getattr(a, "run_params", None)) in live:
+                    ca["params"] = "<shared with a live algorithm>"
+            return c
+
         for obj, snap in wd.shadows:
-            if canon_setup(obj) != snap:
+            if _wo_shared(obj, canon_setup(obj)) != _wo_shared(obj, snap):
                 wd.last_op = {"op": "final"}
                 wd.violate("persist.alias", len(res["ops"]), "using a loaded setup changed the objects it was loaded from / saved from")
                 break
